@@ -36,6 +36,9 @@ class CustomError(Exception):
     pass
 
 
+REFUSED = ('the returned value is refused when validated again',)
+
+
 def utils():
     return real_module('athlib.utils')
 
@@ -59,6 +62,14 @@ def kind_of(d):
 
 
 # ---------------------------------------------------------------------------- concrete contract (oracle for replay and stand-in)
+def record_spec(discipline, gender):
+    """the world record the property measures a field mark against: the table row of the gender in any letter case, the
+    overall row for any other gender text (read from the data table, not through field_event_record)"""
+    T = utils().FIELD_EVENT_RECORDS_BY_GENDER
+    g = gender.lower() if isinstance(gender, str) else 'all'
+    return T[g if g in ('m', 'f') else 'all'].get(discipline.upper())
+
+
 def result_ok(discipline, gender, prec, text, outcome):
     """outcome: ('ret', value) | ('exc', exception class name is errorKlass?) -> None if the contract holds, else what is wrong"""
     u = utils()
@@ -77,7 +88,7 @@ def result_ok(discipline, gender, prec, text, outcome):
     if k == 'field':
         if not re.match(r'^\d+\.\d\d$', r):
             return 'field mark %r is not a two-decimal number' % r
-        rec = u.field_event_record(discipline, gender)
+        rec = record_spec(discipline, gender)
         if rec and float(r) > rec * 1.2 + 0.005:
             return 'field mark %r absurdly beyond the record %r' % (r, rec)
         return None
@@ -189,7 +200,7 @@ def parse_result(r):
 
 
 def unit_sym(args):
-    disc, shape, prec = args
+    disc, shape, prec, gender = args
     u = utils()
     gd = instrument(u.get_distance)
     fer = instrument(u.field_event_record)
@@ -217,16 +228,19 @@ def unit_sym(args):
                                                                 'PAT_LONG_SECONDS': PerfPat(codes().PAT_LONG_SECONDS)})
     kind = kind_of(disc)
     dist = u.get_distance(disc)
-    rec = u.field_event_record(disc, 'all')
+    rec = record_spec(disc, gender)
 
     def run():
         t = S.SStr.fresh('t', mk_text(shape))
         ctx().extra = t
-        r = f(disc, t, errorKlass=CustomError, prec=prec)
+        r = f(disc, t, gender=gender, errorKlass=CustomError, prec=prec)
         if isinstance(r, SFmt):
             r = r.force()
         # idempotence: validate the returned text again
-        r2 = f(disc, r, errorKlass=CustomError, prec=prec)
+        try:
+            r2 = f(disc, r, gender=gender, errorKlass=CustomError, prec=prec)
+        except CustomError as e:
+            return r, REFUSED
         if isinstance(r2, SFmt):
             r2 = r2.force()
         return r, r2
@@ -240,7 +254,10 @@ def unit_sym(args):
         if p.outcome != 'ret':
             return
         r, r2 = p.value
-        if prec is None:       # with a precision the text goes through two more float<->text conversions: left to the stand-in
+        if r2 is REFUSED:
+            if not (disc.lower() == 'xc' and isinstance(r, str) and r == ''):
+                c.oblige('%s/validating-the-result-again-is-accepted' % name, False, 'post', meta=dict(result=repr(r)[:80]))
+        elif prec is None:       # with a precision the text goes through two more float<->text conversions: left to the stand-in
             c.oblige('%s/validating-the-result-again-returns-it-unchanged' % name, zbool(sym_eq(r, r2)), 'post', meta=dict(result=repr(r)[:80]))
         if kind == 'multi':
             cells = list(S.cells_of(r))
@@ -275,21 +292,25 @@ def unit_sym(args):
             c.oblige('%s/speed-within-the-documented-limits' % name,
                      z3.And(dur > 0, 100 * dist * den <= (100 * lim + 1) * dur, 100 * dist * den >= 49 * dur), 'post', meta=dict(result=repr(r)[:80]))
 
-    res = U.verify('check_performance[%s,%s,prec=%s]' % (disc, ''.join(x if isinstance(x, str) else 'd' for x in mk_text(shape)), prec), run, post,
+    res = U.verify('check_performance[%s,%s,prec=%s%s]' % (disc, ''.join(x if isinstance(x, str) else 'd' for x in mk_text(shape)), prec,
+                                                             '' if gender == 'all' else ',gender=' + gender), run, post,
                    timeout_ms=20000, want_sample=(disc == '800' and shape == ((1, 2), ('.', 2), ':', '.') and prec is None))
     for x in res['results']:
-        x['ctx'] = dict(disc=disc, classes=[y if isinstance(y, str) else 'd' for y in mk_text(shape)], prec=prec)
+        x['ctx'] = dict(disc=disc, classes=[y if isinstance(y, str) else 'd' for y in mk_text(shape)], prec=prec, gender=gender)
     res['fns'] = [x.describe() for x in (f, gd, fer, fsat)]
     return res
 
 
 def conc(r):
     cx = r['ctx']
-    m = r.get('model') or {}
-    t = ''.join(c if c != 'd' else chr(int(m.get('t_%d' % i, 53))) for i, c in enumerate(cx['classes']))
-    w = contract(cx['disc'], t, 'all', cx['prec'])
-    return dict(call='check_performance_for_discipline(%r, %r, errorKlass=CustomError, prec=%r)' % (cx['disc'], t, cx['prec']), observed=w or 'contract holds',
-                input=[cx['disc'], t, 'all', cx['prec']]), bool(w)
+    g = cx.get('gender', 'all')
+    for m in [r.get('model') or {}] + list(r.get('alt_models') or []):
+        t = ''.join(c if c != 'd' else chr(int(m.get('t_%d' % i, 53))) for i, c in enumerate(cx['classes']))
+        w = contract(cx['disc'], t, g, cx['prec'])
+        if w:
+            break
+    return dict(call='check_performance_for_discipline(%r, %r, gender=%r, errorKlass=CustomError, prec=%r)' % (cx['disc'], t, g, cx['prec']),
+                observed=w or 'contract holds', input=[cx['disc'], t, g, cx['prec']]), bool(w)
 
 
 # ---------------------------------------------------------------------------- bounded stand-in
@@ -329,7 +350,7 @@ def standin_chunk(args):
         else:
             disc = rnd.choice(loose) if rnd.random() < 0.7 else rnd.choice(lang)
             t = gen_text(rnd)
-        gender = rnd.choice(['all', 'm', 'f', 'M', 'x'])
+        gender = rnd.choice(['all', 'm', 'f', 'M', 'F', 'x'])
         prec = rnd.choice([None, None, 0, 1, 2, 3])
         cnt += 1
         try:
@@ -343,7 +364,51 @@ def standin_chunk(args):
     return cnt, bad
 
 
+def boundary_grid():
+    """directed entries at the seams of the cascade: rounding carries (seconds/minutes 59 with 2-4 decimals near .995), tiny
+    and zero durations, and field marks around 120 % of each gender's record"""
+    u = utils()
+    out = []
+    for disc in ['60', '100', '400', '800', '1500', '5000', '10000', 'MAR', 'HM', '3KW', '4x400']:
+        for h in ['', '0:', '1:', '2:', '01:']:
+            for m in ['', '0:', '00:', '59:', '1:', '58:']:
+                if h and not m:
+                    continue
+                for sec in ['59', '00', '0', '60', '09']:
+                    for dec in ['', '.99', '.994', '.995', '.996', '.999', '.9999', '.004', '.005', '.001', ',999', '.0']:
+                        out.append((disc, h + m + sec + dec, 'all'))
+        for t in ['0.004', '0.001', '0:00.004', '0,004', '00.003', '0.0049', '0.005', '0.0051', '0:0.001', '0:00:00.002', '.004', '000.004']:
+            out.append((disc, t, 'all'))
+    T = u.FIELD_EVENT_RECORDS_BY_GENDER
+    for ev in T['all']:
+        for g in ['m', 'M', 'f', 'F', 'all', 'ALL', 'x', 'Male']:
+            for base in (T['m'][ev], T['f'][ev]):
+                for d in (-2, -1, 0, 1, 2, 30):
+                    out.append((ev, '%.2f' % (base * 1.2 + d / 100.0), g))
+                    out.append((ev.lower(), '%.2f' % (base * 1.2 + d / 100.0), g))
+    return out
+
+
+def boundary_chunk(args):
+    i, n = args
+    grid = boundary_grid()
+    bad = []
+    cnt = 0
+    for disc, t, g in grid[i::n]:
+        for prec in (None, 2, 3):
+            cnt += 1
+            try:
+                w = contract(disc, t, g, prec)
+            except Exception:
+                w = None
+            if w:
+                bad.append((disc, t, g, prec, w))
+    return cnt, bad[:40]
+
+
 def _work(job):
+    if job[0] == 'boundary':
+        return ('standin',) + boundary_chunk(job[1])
     if job[0] == 'sym':
         r = unit_sym(job[1])
         r['job'] = job
@@ -372,12 +437,19 @@ def main(tier, seed):
     discs = DISCIPLINES if tier != 'quick' else ['100', '400', '800', '1500', '5000', 'MAR', 'XC', 'HJ', 'JT', 'DEC']
     for disc in discs:
         for shape in shapes:
-            J.append(('sym', (disc, shape, None)))
+            J.append(('sym', (disc, shape, None, 'all')))
+        if kind_of(disc) == 'field':
+            # the record is the one of the caller's gender, in any letter case; other texts mean the overall record
+            for g in (['M', 'f', 'F'] if tier == 'quick' else ['m', 'M', 'f', 'F', 'x', 'ALL']):
+                for shape in shapes:
+                    if len(shape[0]) == 1:
+                        J.append(('sym', (disc, shape, None, g)))
         if tier != 'quick':
             for shape in shapes[::5]:
-                J.append(('sym', (disc, shape, 2)))
+                J.append(('sym', (disc, shape, 2, 'all')))
     n_st = 3000 if tier == 'quick' else 60000
     J += [('standin', (seed * 16 + i, n_st // 16)) for i in range(16)]
+    J += [('boundary', (i, 8)) for i in range(8)]
     results = report.pool_map(_work, J)
     cnt = 0
     cache = {}
